@@ -96,21 +96,75 @@ Full statement (false on the real code, see the counterexample below):
   ∀ uw ≥ w, couldWrite x = true ↔ Representable (.enum uw true) w x
 -/
 /-- **EnumView::CouldWriteValue**, signed enums, partial: when the field has the width of the
-underlying type *and* of the buffer's value type (`w = uw = W`: an `int8_t` enum in one byte
-of a struct, …) every value of the enum type is accepted, and is representable.  Missing:
-narrower fields and fields inside wider `bits` (open findings). -/
+underlying type (`w = uw`; the buffer's value type may be wider — an `int8_t` enum at bit 4 of
+a 16-bit `bits` — since `fix: … negative value of a signed enum … inside a wider bits`, which
+converts through the unsigned underlying type) exactly the representable values, i.e. every
+value of the enum type, are accepted.  Missing: fields narrower than the underlying type
+(open finding `signed-enum-in-field-narrower-than-underlying-type`, see
+`C03_could_write_enum_signed_actual`). -/
 theorem C03_could_write_enum_signed_partial (h : Placed bb o w) (direct : Bool)
-    (hW : w = bb.W) (t : IntT) (x : Int) (ha : ArgOk (.enum w true) w t x) :
-    (fieldView (.enum w true) direct bb o w).couldWrite t x = true ∧
-      Representable (.enum w true) w x := by
-  refine ⟨?_, (representable_signed (ty := .enum w true) rfl h.w_pos x).mpr ha⟩
-  simp only [View.couldWrite, fieldView, fieldBuf_W, ← hW, Bool.and_eq_true, Bool.or_eq_true,
-    decide_eq_true_eq, if_true]
-  exact ⟨(toSigned_ofInt (by have := h.w_pos; omega) ha.1 ha.2).symm, Or.inl trivial⟩
+    (t : IntT) (x : Int) (ha : ArgOk (.enum w true) w t x) :
+    ((fieldView (.enum w true) direct bb o w).couldWrite t x = true ↔
+      Representable (.enum w true) w x) ∧
+    (fieldView (.enum w true) direct bb o w).couldWrite t x = true := by
+  have hr := (representable_signed (ty := .enum w true) rfl h.w_pos x).mpr ha
+  have hc := (enum_signed_could w w h.w_pos (Nat.le_refl w) (fieldBuf direct bb o w)
+    (by rw [fieldBuf_W]; exact placed_w_le_W h) t x ha.1 ha.2).mpr (Or.inl rfl)
+  exact ⟨⟨fun _ => hr, fun _ => hc⟩, hc⟩
 
--- non-vacuity: an `int8_t` enum occupying one byte of a struct (`w = uw = W = 8`)
+-- non-vacuity: an `int8_t` enum occupying one byte of a struct (`w = uw = W = 8`), and the
+-- pinned input of the fixed finding: the same enum at bit 4 of a 16-bit `bits` (`W = 16`)
 example : exBB8.W = 8 ∧ (fieldView (.enum 8 true) true exBB8 0 8).couldWrite ⟨true, 8⟩ (-128) = true := by
   decide
+def exBB16 : BitBlock := { order := .little, path := .opt, c := 16, bytes := [0, 0] }
+example : exBB16.W = 16 ∧
+    (fieldView (.enum 8 true) false exBB16 4 8).couldWrite ⟨true, 8⟩ (-1) = true ∧
+    (∃ v', (fieldView (.enum 8 true) false exBB16 4 8).tryToWrite ⟨true, 8⟩ (-1) = .written v' ∧
+      v'.buf.bytes = [0xf0, 0x0f] ∧ v'.read = some (-1)) := ⟨by decide, by decide, _, rfl, by decide, by decide⟩
+
+/-- **EnumView::CouldWriteValue of a signed enum, the behaviour of the code for every
+`(w, uw, W)`** (`w ≤ uw`, any buffer value type): a field as wide as the underlying type
+accepts every value; a narrower field accepts exactly `0 ≤ x < 2^w`.  Compared with the
+documented two's-complement range `-2^(w-1) ≤ x < 2^(w-1)` the narrow field wrongly refuses
+the negative half and wrongly accepts `2^(w-1) ≤ x < 2^w` — the open finding. -/
+theorem C03_could_write_enum_signed_actual (h : Placed bb o w) (direct : Bool) (uw : Nat)
+    (huw : w ≤ uw) (t : IntT) (x : Int) (ha : ArgOk (.enum uw true) w t x) :
+    ((fieldView (.enum uw true) direct bb o w).couldWrite t x = true ↔
+      (w = uw ∨ (0 ≤ x ∧ x < ((2 ^ w : Nat) : Int)))) ∧
+    (w < uw → (((fieldView (.enum uw true) direct bb o w).couldWrite t x = true ↔
+        Representable (.enum uw true) w x) ↔
+      ((0 ≤ x ∧ x < ((2 ^ (w - 1) : Nat) : Int)) ∨ x < -((2 ^ (w - 1) : Nat) : Int) ∨
+        ((2 ^ w : Nat) : Int) ≤ x))) := by
+  have hc := enum_signed_could w uw h.w_pos huw (fieldBuf direct bb o w)
+    (by rw [fieldBuf_W]; exact placed_w_le_W h) t x ha.1 ha.2
+  refine ⟨hc, ?_⟩
+  intro hlt
+  have hc' : (fieldView (.enum uw true) direct bb o w).couldWrite t x = true ↔
+      (w = uw ∨ (0 ≤ x ∧ x < ((2 ^ w : Nat) : Int))) := hc
+  rw [hc', representable_signed (ty := .enum uw true) rfl h.w_pos]
+  have hd := pow_pred_double (W := w) h.w_pos
+  constructor
+  · intro hiff
+    by_cases h0 : 0 ≤ x
+    · by_cases h1 : x < ((2 ^ (w - 1) : Nat) : Int)
+      · exact Or.inl ⟨h0, h1⟩
+      · right; right
+        by_cases h2 : x < ((2 ^ w : Nat) : Int)
+        · have := hiff.mp (Or.inr ⟨h0, h2⟩); omega
+        · omega
+    · right; left
+      by_cases h1 : -((2 ^ (w - 1) : Nat) : Int) ≤ x
+      · have := hiff.mpr ⟨h1, by omega⟩
+        rcases this with he | ⟨h0', _⟩ <;> omega
+      · omega
+  · rintro (⟨h0, h1⟩ | h1 | h1)
+    · exact ⟨fun _ => ⟨by omega, h1⟩, fun _ => Or.inr ⟨h0, by omega⟩⟩
+    · constructor
+      · rintro (he | ⟨h0, _⟩) <;> omega
+      · rintro ⟨h2, _⟩; omega
+    · constructor
+      · rintro (he | ⟨_, h2⟩) <;> omega
+      · rintro ⟨_, h2⟩; omega
 
 /-- **Counterexample**: a 4-bit field of an `int8_t` enum refuses `-1` (representable in
 4-bit two's complement) and accepts `15` (not representable). -/
@@ -125,17 +179,18 @@ theorem C03_enum_signed_narrow_counterexample :
 
 /-- **Write then read**: whenever `CouldWriteValue(x)` holds (the view being complete),
 `TryToWrite(x)` succeeds, the buffer stays a well-formed container, and `Read()` then
-returns exactly `x` (and `Ok()` holds).  For signed enums under the side condition of
-`C03_could_write_enum_signed_partial`. -/
+returns exactly `x` (and `Ok()` holds).  For every view type meeting `TypeFits` (signed
+enums: `w = uw`; the narrow signed enum fields are covered, with the behaviour the code has,
+by `C03_enum_signed_write_then_read_actual`). -/
 theorem C03_write_then_read (h : Placed bb o w) (direct : Bool)
     (hd : direct = true → o = 0 ∧ w = bb.c) (ty : Ty) (hty : TypeFits ty w)
-    (hs : ∀ uw, ty = .enum uw true → w = bb.W) (t : IntT) (x : Int) (ha : ArgOk ty w t x)
+    (t : IntT) (x : Int) (ha : ArgOk ty w t x)
     (hc : (fieldView ty direct bb o w).couldWrite t x = true) :
     ∃ bytes', (fieldView ty direct bb o w).tryToWrite t x =
         .written (fieldView ty direct { bb with bytes := bytes' } o w) ∧
       Placed { bb with bytes := bytes' } o w ∧
       (fieldView ty direct { bb with bytes := bytes' } o w).read = some x := by
-  obtain ⟨henc, hdec⟩ := encode_spec h direct ty hty hs t x ha hc
+  obtain ⟨henc, hdec⟩ := encode_spec h direct ty hty t x ha hc
   obtain ⟨bytes', hw, hp, hu⟩ := tryToWrite_written h direct hd ty t x hc henc
   refine ⟨bytes', hw, hp, ?_⟩
   rw [C02_read_eq_spec hp direct hd ty hty]
@@ -146,6 +201,49 @@ theorem C03_write_then_read (h : Placed bb o w) (direct : Bool)
 example : ∃ v', (fieldView .int false exBB 9 5).tryToWrite ⟨true, 8⟩ (-3) = .written v' ∧
     v'.read = some (-3) ∧ v'.buf.bytes = [0x12, 0x3a, 0x56] := ⟨_, rfl, by decide, by decide⟩
 
+/-- **Signed enum, write then read, for every `(w, uw, W)`**: whatever value the code accepts
+(`C03_could_write_enum_signed_actual`) is stored in the field's own bits only and read back
+exactly — also in the narrow fields of the open finding, where the accepted values are
+`0 … 2^w − 1` and `Read()` zero-extends.  So the finding is confined to *which* values are
+accepted / how a given bit pattern is interpreted; write/read round trips and the frame
+condition hold unconditionally. -/
+theorem C03_enum_signed_write_then_read_actual (h : Placed bb o w) (direct : Bool)
+    (hd : direct = true → o = 0 ∧ w = bb.c) (uw : Nat) (huw : w ≤ uw) (t : IntT) (x : Int)
+    (ha : ArgOk (.enum uw true) w t x)
+    (hc : (fieldView (.enum uw true) direct bb o w).couldWrite t x = true) :
+    ∃ bytes', (fieldView (.enum uw true) direct bb o w).tryToWrite t x =
+        .written (fieldView (.enum uw true) direct { bb with bytes := bytes' } o w) ∧
+      Placed { bb with bytes := bytes' } o w ∧
+      (fieldView (.enum uw true) direct { bb with bytes := bytes' } o w).read = some x ∧
+      ∀ o' w', o' + w' ≤ o ∨ o + w ≤ o' →
+        fieldBits { bb with bytes := bytes' } o' w' = fieldBits bb o' w' := by
+  have hkB := placed_w_le_W h
+  have hcase := (enum_signed_could w uw h.w_pos huw (fieldBuf direct bb o w)
+    (by rw [fieldBuf_W]; exact hkB) t x ha.1 ha.2).mp hc
+  have henc_eq : (fieldView (.enum uw true) direct bb o w).encode x = wrap bb.W (ofInt uw x) := by
+    simp only [View.encode, fieldView, fieldBuf_W]
+  -- the unsigned image fits the field
+  have hfit : ofInt uw x < 2 ^ w := by
+    rcases hcase with he | ⟨h0, hlt⟩
+    · subst he; exact ofInt_lt w x
+    · rw [ofInt_of_nonneg h0 (by have := pow_le_pow huw; omega)]; omega
+  have hwr : wrap bb.W (ofInt uw x) = ofInt uw x := enum_encode_eq hkB x hfit
+  have henc : (fieldView (.enum uw true) direct bb o w).encode x < 2 ^ w := by
+    rw [henc_eq, hwr]; exact hfit
+  obtain ⟨bytes', hw, hp, hu⟩ := tryToWrite_written h direct hd (.enum uw true) t x hc henc
+  have hfb0 : fieldBits { bb with bytes := bytes' } o w =
+      (fieldView (.enum uw true) direct bb o w).encode x := bits_of_updated hu henc
+  have hfb : fieldBits { bb with bytes := bytes' } o w = ofInt uw x := by
+    rw [hfb0, henc_eq, hwr]
+  refine ⟨bytes', hw, hp, ?_, fun o' w' hdis => bits_disjoint_of_updated hu hdis⟩
+  rw [(C02_enum_read_signed_actual hp uw huw direct hd).2.1, hfb,
+    toSigned_ofInt (by have := h.w_pos; omega) ha.1 ha.2]
+
+-- non-vacuity (test): the 4-bit field of an `int8_t` enum accepts 15, stores 0xF in the low
+-- nibble only, and reads 15 back
+example : ∃ v', (fieldView (.enum 8 true) false exBB8 0 4).tryToWrite ⟨true, 8⟩ 15 = .written v' ∧
+    v'.buf.bytes = [0x8f] ∧ v'.read = some 15 := ⟨_, rfl, by decide, by decide⟩
+
 /-- **Frame**: a successful write changes the container value only in bits `[o, o+w)`
 (`Updated`: every other bit is the old one), writes back exactly the container's `c/8`
 bytes, and therefore every disjoint field of the same container reads the same bits as
@@ -153,7 +251,7 @@ before.  Bytes outside the container are not part of the store at all (`storeLE/
 `c/8` bytes; the sanitizer-instrumented tie checks the real code never touches others). -/
 theorem C03_write_frame (h : Placed bb o w) (direct : Bool)
     (hd : direct = true → o = 0 ∧ w = bb.c) (ty : Ty) (hty : TypeFits ty w)
-    (hs : ∀ uw, ty = .enum uw true → w = bb.W) (t : IntT) (x : Int) (ha : ArgOk ty w t x)
+    (t : IntT) (x : Int) (ha : ArgOk ty w t x)
     (hc : (fieldView ty direct bb o w).couldWrite t x = true) :
     ∃ bytes', (fieldView ty direct bb o w).tryToWrite t x =
         .written (fieldView ty direct { bb with bytes := bytes' } o w) ∧
@@ -162,7 +260,7 @@ theorem C03_write_frame (h : Placed bb o w) (direct : Bool)
         (containerValue bb.order bytes') ∧
       ∀ o' w', o' + w' ≤ o ∨ o + w ≤ o' →
         fieldBits { bb with bytes := bytes' } o' w' = fieldBits bb o' w' := by
-  obtain ⟨henc, _⟩ := encode_spec h direct ty hty hs t x ha hc
+  obtain ⟨henc, _⟩ := encode_spec h direct ty hty t x ha hc
   obtain ⟨bytes', hw, hp, hu⟩ := tryToWrite_written h direct hd ty t x hc henc
   have hfb : fieldBits { bb with bytes := bytes' } o w = (fieldView ty direct bb o w).encode x :=
     bits_of_updated hu henc
